@@ -60,7 +60,7 @@ def run_check(d, prop, seed="1"):
 def main():
     ap = argparse.ArgumentParser()
     ap.add_argument("--tests", action="store_true")
-    ap.add_argument("--prop")
+    ap.add_argument("--prop", help="one property, or several separated by commas")
     ap.add_argument("--id")
     ap.add_argument("--seeded", action="store_true", help="run the seeded/<id>/patch.diff changes instead")
     ap.add_argument("--seed", default="1", help="VERIF_SEED for the checks; with a value other than 1 nothing is recorded")
@@ -80,7 +80,7 @@ def main():
     else:
         muts = json.load(open(os.path.join(HERE, "mutants.json")))
     if a.prop:
-        muts = [m for m in muts if m["prop"] == a.prop]
+        muts = [m for m in muts if m["prop"] in a.prop.split(",")]
     if a.id:
         muts = [m for m in muts if m["id"] == a.id]
     bad = 0
